@@ -32,7 +32,7 @@ def design(ctx):
     """TLC on the spec. -> (coverage dict, total distinct, total generated)"""
     af.locked_subdir(ctx)
     w = ctx.pick(4, 8)
-    any_steps = ctx.pick(8, 11)     # K=12: 114 264 distinct / 1 066 732 generated also passes (measured, notes/C06.md)
+    any_steps = ctx.pick(8, 12)     # thorough K=12: 114 264 distinct / 1 066 732 generated
     any_cfg = _cfg_with(ctx, "AtomicFile_mc_any.cfg", "AtomicFile_mc_any_fit.cfg",
                         [("AnyMaxSteps = 8", "AnyMaxSteps = %d" % any_steps)])
     wr_chunks = ctx.pick(3, 5)
